@@ -22,6 +22,31 @@ class Broken(Exception):
     """The check itself could not run (exit 2, never a violation)."""
 
 
+class Crashed(Broken):
+    """A harness driver process died. .stderr holds its output; akita_panic() tells whether
+    the Go panic was raised inside the repository's own code (first frame that is neither
+    runtime/log nor the harness) — a real-code failure a check may report — or in the harness."""
+
+    def __init__(self, msg, stderr):
+        super().__init__(msg)
+        self.stderr = stderr
+
+    def akita_panic(self):
+        lines = self.stderr.splitlines()
+        try:
+            i = next(k for k, l in enumerate(lines) if l.startswith("panic:") or l.startswith("fatal error:"))
+        except StopIteration:
+            return None
+        for l in lines[i + 1:]:
+            l = l.strip()
+            if not l or l.startswith(("goroutine ", "/", "created by", "[")) or l.startswith(("runtime.", "log.", "panic(", "sync.", "reflect.")):
+                continue
+            if l.startswith("github.com/sarchlab/akita"):
+                return lines[i].strip() + " in " + l.split("(")[0]
+            return None
+        return None
+
+
 _scratch_dirs = []
 
 
@@ -88,7 +113,8 @@ def harness(binary, driver, payload, timeout=900, env=None, args=()):
     except subprocess.TimeoutExpired:
         raise Broken("harness driver %s timed out after %ss" % (driver, timeout))
     if p.returncode != 0 or not os.path.exists(outp):
-        raise Broken("harness driver %s failed (rc=%s):\n%s\n%s" % (driver, p.returncode, p.stdout[-4000:], p.stderr[-4000:]))
+        raise Crashed("harness driver %s failed (rc=%s):\n%s\n%s" % (driver, p.returncode, p.stdout[-4000:], p.stderr[-4000:]),
+                      p.stderr[-20000:])
     with open(outp) as f:
         res = json.load(f)
     shutil.rmtree(d, ignore_errors=True)
